@@ -19,6 +19,7 @@ UPD = "broker::update::MetaStoreUpdate"
 MS = "broker::store::MetaStore"
 
 MUTANTS = [
+    {"name": "report-time-in-milliseconds", "file": "src/broker/update.rs", "old": "            .insert(reporter_id, now.timestamp());", "new": "            .insert(reporter_id, now.timestamp_millis());", "expect": "C18.D1:report-time-unit"},
     {"name": "quorum-ge-to-gt", "file": "src/broker/update.rs", "old": ".filter(|(_, v)| v.len() >= failure_quorum as usize)", "new": ".filter(|(_, v)| v.len() > failure_quorum as usize)", "expect": "C18.D2:quorum"},
     {"name": "ttl-lt-to-le-swapped", "file": "src/broker/update.rs", "old": "now - report_datetime < failure_ttl", "new": "failure_ttl >= now - report_datetime", "expect": "C18.D2:fresh"},
     {"name": "ttl-inverted", "file": "src/broker/update.rs", "old": "now - report_datetime < failure_ttl", "new": "now - report_datetime > failure_ttl", "expect": "C18.D2:fresh"},
@@ -66,6 +67,21 @@ def _add_failure(ctx):
     k = du.slice_operand(it_["args"][1]); v = du.slice_operand(it_["args"][2]); recv = du.slice_operand(it_["args"][0])
     ctx.check(k.has_param(3) and not k.has_param(2), "C18.D1", "inner-key-is-reporter", site(b, ibb), ok="report stored under the reporter id", bad="the inner map is not keyed by the reporter id: %s" % k.summary())
     ctx.check(v.has_call("timestamp") or v.has_call("Utc::now"), "C18.D1", "value-is-report-time", site(b, ibb), ok="value = now.timestamp()", bad="stored value is not the report time")
+    # unit agreement between the writer (add_failure) and the reader (get_failures): seconds with seconds
+    UNITS = {"timestamp": "s", "timestamp_millis": "ms", "timestamp_micros": "us", "timestamp_nanos": "ns", "timestamp_subsec_millis": "?",
+             "from_timestamp": "s", "from_timestamp_opt": "s", "from_timestamp_millis": "ms", "from_timestamp_micros": "us", "timestamp_opt": "s", "timestamp_millis_opt": "ms"}
+    w_units = sorted({UNITS[c.rsplit("::", 1)[-1]] for c in list(v.calls) + list(v.decls) if c.rsplit("::", 1)[-1] in UNITS and "chrono" in c})
+    gf = F.one(UPD + "::get_failures")
+    r_units = []
+    if gf is not None:
+        for fb in F.family(gf):
+            for bb_, t_ in fb.calls():
+                c_ = callee_of(t_) or callee_decl(t_) or ""
+                if c_.rsplit("::", 1)[-1] in UNITS and "chrono" in c_ and c_.rsplit("::", 1)[-1].startswith(("from_timestamp", "timestamp_opt", "timestamp_millis_opt")):
+                    r_units.append(UNITS[c_.rsplit("::", 1)[-1]])
+    r_units = sorted(set(r_units))
+    ctx.check(len(w_units) == 1 and w_units == r_units, "C18.D1", "report-time-unit", site(b, ibb), ok="report time written and read in the same unit (%s)" % w_units,
+              bad="add_failure stores the report time in %s but get_failures decodes it as %s: the age of a report is computed wrongly and reports %s" % (w_units, r_units, "never expire" if w_units and r_units and w_units != r_units else "are mis-aged"))
     ek = du.slice_operand(entries[0][1]["args"][1])
     ctx.check(ek.has_param(2) and not ek.has_param(3) and recv.has_call("HashMap::entry"), "C18.D1", "outer-key-is-address", site(b, entries[0][0]), ok="reports grouped by reported address", bad="the outer map is not keyed by the address")
     # idempotence: lookup closure result decides an early return
